@@ -308,12 +308,23 @@ def clause2_ret(ctx, P, cg, own):
             tail_id = f.insts[rt[3]].id if (may_fail_tail and rt is not None) else None
             unlinked = [i for k, i in v.calls() if i.id != tail_id and reaches(i, ("list_del",))]
             gst = [i for _, i in v.insts() if i.op == "store" and P.term(f, i.a[1])[0] == "global"]
+
+            def given(t):
+                while isinstance(t, tuple) and t and t[0] in ("field", "index", "byteoff", "load", "container_of"):
+                    t = t[1]
+                return isinstance(t, tuple) and t and t[0] == "param"
+            closes = [i for k, i in v.calls() if k < limit and i.id != (f.insts[rt[3]].id if (may_fail_tail and rt is not None) else None) and
+                      any(given(P.term(f, a)) for a in i.a) and
+                      (reaches(i, ("buffered_socket_close", "socket_close", "free_connection")) or
+                       any(P.srcname_of(t) in ("close", "buffered_socket_close", "socket_close") for t in cg.targets(f, i)))]
+            if closes and bad is None:
+                bad = (v, "closes what it was handed (%s at %s)" % ("/".join(sorted(P.srcname_of(t) for t in cg.targets(f, closes[0]))) or "?", closes[0].loc))
             if (linked and len(unlinked) < len(linked)) or gst:
                 bad = (v, "links its argument into a list (through %s)" % P.srcname_of(linked[0].callee or "?") if linked
                        else "writes global state (%s)" % fmt_term(P.term(f, gst[0].a[1])))
         ctx.ob("C15.2 R-COMMIT", f, "failure-leaves-nothing-registered", bad is None,
-               "%s %s on a path that then fails: the caller frees the object, which stays reachable (global peer list / counter) - a "
-               "dangling peer that other peers' sweeps and the shutdown sequence will touch" % (f.srcname, bad[1] if bad else ""),
+               "%s %s on a path that then fails: the caller of a failed initialiser releases the object and what belongs to it itself "
+               "(it stays reachable through a global list, or is closed / freed twice)" % (f.srcname, bad[1] if bad else ""),
                witness=bad[0].witness() if bad else None)
     # an object whose initialiser FAILED is not torn down with the full destructor (which walks what the initialiser would have
     # set up): after `init(x) < 0` on a path, nothing that reaches free_peer_resources() is called on that path
